@@ -46,6 +46,12 @@ CHECKS['C16'] = dict(text='Symbolic execution of function::build and the vftable
              'declared convention or the documented default and that the unknown name is rejected.',
              note='semantic values only; the extern "<cc>" token emitted by the backend is CallingConvention::as_str of the checked value and is not executed',
              design='4/C16')
+CHECKS['C10'] = dict(text='Symbolic execution of the resolution fix-point over dependency graphs of 2..3 (thorough 4) types in two mutually importing modules '
+             '(field types: scalar, by value, pointer, array, #[base], enum, undefined name; targets incl. a non-existent type; rotated definition and '
+             'module order): z3 proves accepted <=> all names defined and by-value relation acyclic (closure unrolled), that accepted builds contain '
+             'every declared type and field with its declared type, and that the not-terminating error lists exactly the unresolvable types.',
+             note='graph size bounded (<= 4 types, <= 2 fields each, 2 modules); scalars pointer-width so layout never interferes; undefined names in function signatures / enum bases / extern values are covered by C05, C08 (base 9) and C15',
+             design='4/C10')
 NA = {}
 ALL = [json.loads(l)['id'] for l in open('properties.jsonl')]
 for p in ALL:
